@@ -943,7 +943,8 @@ Proof.
 Qed.
 Lemma rel_spec_new r : new_only r = true -> rel_spec r = RSNew (rr_name r) (rr_ver r).
 Proof.
-  unfold new_only. destruct r as [n [q|] v ar pr]; cbn [rr_qual rr_name rr_ver]; intros H; [now rewrite andb_false_r in H|reflexivity].
+  unfold new_only, plain. destruct r as [n [q|] v ar pr]; cbn [rr_qual rr_name rr_ver rr_archs rr_profs]; intros H; [now rewrite andb_false_r in H|].
+  destruct ar; [discriminate|]. destruct pr; [reflexivity|discriminate].
 Qed.
 
 Lemma build_relation_greens_new e : forallb new_only e = true -> forall ts rs,
